@@ -31,14 +31,23 @@ type rcase struct {
 	Start bound  `json:"start"`
 	TTL   bound  `json:"ttl"`
 	// observations
+	Shape     *shape `json:"shape,omitempty"` // nil = one input, one output
 	TxHex     string `json:"tx_hex,omitempty"`
-	Accepted  bool   `json:"accepted"`
+	Accepted  bool   `json:"accepted"`        // whole era rule list through common.VerifyTransaction
+	Direct    bool   `json:"accepted_direct"` // validity rule function(s) called directly
 	RuleNames string `json:"validity_rules_in_list,omitempty"`
 }
 
 // mockLS answers nothing: any rule that consults the ledger state panics,
 // which the harness recovers (such rules are not validity-interval rules).
 type mockLS struct{ common.LedgerState }
+
+func (rc rcase) shape() shape {
+	if rc.Shape == nil {
+		return defaultShape
+	}
+	return *rc.Shape
+}
 
 func uintItem(b bound) *vh.Item {
 	it := vh.U(b.V)
@@ -50,7 +59,7 @@ func uintItem(b bound) *vh.Item {
 }
 
 func buildTx(rc rcase) []byte {
-	kv := baseBody(rc.Era, make([]byte, 32), 200000)
+	kv := shapedBody(rc.Era, rc.shape(), 200000, true)
 	if rc.TTL.Present {
 		kv = append(kv, vh.U(3), uintItem(rc.TTL))
 	}
@@ -94,13 +103,11 @@ func observe(rc *rcase) (harnessErr error) {
 	rules := eraRules(rc.Era)
 	pp := eraPparams(rc.Era)
 	ls := mockLS{}
-	var validity []common.UtxoValidationRuleFunc
 	var names []string
 	rejected := false
 	for _, r := range rules {
 		_, name, _ := funcInfo(r)
 		if isValidityRuleName(name) {
-			validity = append(validity, r)
 			names = append(names, name)
 			continue
 		}
@@ -112,23 +119,45 @@ func observe(rc *rcase) (harnessErr error) {
 		}
 	}
 	rc.RuleNames = strings.Join(names, ",")
-	var verr error
-	if p, v := vh.Recover(func() { verr = common.VerifyTransaction(tx, rc.Slot, ls, pp, validity) }); p {
+	classify := func(err error) (bool, error) {
+		if err == nil {
+			return true, nil
+		}
+		if !isValidityError(err) {
+			return false, fmt.Errorf("validity rule returned a foreign error: %v", err)
+		}
+		return false, nil
+	}
+	// (1) the validity rule function(s) of the list called directly
+	var derr error
+	if p, v := vh.Recover(func() { derr = directRules(rc.Era, isValidityRuleName, tx, rc.Slot, ls, pp) }); p {
 		return fmt.Errorf("validity rule panicked: %v", v)
 	}
-	if verr != nil {
-		if !isValidityError(verr) {
-			return fmt.Errorf("validity rule returned a foreign error: %v", verr)
-		}
-		rejected = true
+	ok, err := classify(derr)
+	if err != nil {
+		return err
 	}
+	rc.Direct = ok && !rejected
+	// (2) the whole era rule list through common.VerifyTransaction (other rules run, verdicts discarded)
+	var verr error
+	if p, v := vh.Recover(func() { verr, _ = projectedVerify(rc.Era, isValidityRuleName, tx, rc.Slot, ls, pp) }); p {
+		return fmt.Errorf("VerifyTransaction panicked: %v", v)
+	}
+	ok, err = classify(verr)
+	if err != nil {
+		return err
+	}
+	rejected = rejected || !ok
 	rc.Accepted = !rejected
 	return nil
 }
 
 // monitor: the property text, evaluated directly.
 func monitor(c *vh.Ctx, rc rcase) {
-	if !rc.Accepted {
+	if rc.Direct && !rc.Accepted {
+		return // stricter through the pipeline: not a violation of "accepted only if"
+	}
+	if !rc.Accepted && !rc.Direct {
 		return
 	}
 	if rc.Era == "shelley" {
@@ -167,13 +196,13 @@ func runCase(c *vh.Ctx, cf *vh.CaseFile, rc rcase) {
 		return
 	}
 	class := rc.Era + "/" + relClass(rc)
-	canon := fmt.Sprintf("%s|%d|%v|%v", rc.Era, rc.Slot, rc.Start, rc.TTL)
+	canon := fmt.Sprintf("%s|%d|%v|%v|%v", rc.Era, rc.Slot, rc.Start, rc.TTL, rc.shape())
 	c.Res.Count(canon, rc.Start.Present || rc.TTL.Present, class)
 	if rc.TTL.Present && rc.TTL.V != 0 {
 		c.Res.Sample(map[string]any{"era": rc.Era, "slot": rc.Slot, "start": rc.Start, "ttl": rc.TTL, "accepted": rc.Accepted})
 	}
 	monitor(c, rc)
-	cf.Add(fmt.Sprintf("(%s, %s, %s, %s, %s)", vh.Str(rc.Era), vh.N(rc.Slot), coqBound(rc.Start), coqBound(rc.TTL), vh.Bool(rc.Accepted)), rc)
+	cf.Add(fmt.Sprintf("(%s, %s, %s, %s, %s, %s)", vh.Str(rc.Era), vh.N(rc.Slot), coqBound(rc.Start), coqBound(rc.TTL), vh.Bool(rc.Direct), vh.Bool(rc.Accepted)), rc)
 }
 
 func rel(b bound, slot uint64) string {
@@ -189,7 +218,9 @@ func rel(b bound, slot uint64) string {
 	}
 	return "above"
 }
-func relClass(rc rcase) string { return "start-" + rel(rc.Start, rc.Slot) + "/ttl-" + rel(rc.TTL, rc.Slot) }
+func relClass(rc rcase) string {
+	return "start-" + rel(rc.Start, rc.Slot) + "/ttl-" + rel(rc.TTL, rc.Slot)
+}
 
 // boundsAround: absent, 0, slot-1, slot, slot+1, 2^64-1 (+1 = 1)
 func boundsAround(slot uint64) []bound {
@@ -204,7 +235,7 @@ func boundsAround(slot uint64) []bound {
 }
 
 func run(c *vh.Ctx) error {
-	c.Res.Rule = "per era: a real transaction (CBOR built per era, minimal and widened integer headers) decoded by the era decoder; slot from {0,1,2,100,2^32,2^63,2^64-2,2^64-1,random}; each bound from {absent, 0, 1, slot-1, slot, slot+1, 2^64-1, random}; distinct by (era, slot, start, ttl); non-trivial = at least one bound present"
+	c.Res.Rule = "per era: a real transaction (CBOR built per era, minimal and widened integer headers) decoded by the era decoder; slot from {0,1,2,100,2^32,2^63,2^64-2,2^64-1,random}; each bound from {absent, 0, 1, slot-1, slot, slot+1, 2^64-1, random}; transaction shape varied independently (inputs / reference inputs / collateral in {0,1,2,7,8,9,16,40}, outputs, certificates); every case observed twice: validity rule called directly, and the whole era rule list through common.VerifyTransaction (other rules executed, verdicts discarded); distinct by (era, slot, start, ttl, shape); non-trivial = at least one bound present"
 	c.Res.Modelled = []string{
 		"the other entries of each UtxoValidationRules list are arbitrary boolean functions in the theorems (a Section-free universally quantified `other`); only the validity rules are interpreted",
 		"the era decoders' treatment of keys 3 and 8 (absent -> 0) is modelled by of_opt and checked per case by the harness",
@@ -246,7 +277,8 @@ func run(c *vh.Ctx) error {
 						continue
 					}
 					ttl.Wide, st.Wide = c.Rng.Intn(5), c.Rng.Intn(5)
-					runCase(c, cf, rcase{Era: era, Slot: slot, Start: st, TTL: ttl})
+					sh := genShape(c.Rng)
+					runCase(c, cf, rcase{Era: era, Slot: slot, Start: st, TTL: ttl, Shape: &sh})
 				}
 			}
 		}
@@ -268,6 +300,8 @@ func run(c *vh.Ctx) error {
 		if era != "shelley" {
 			rc.Start = pick()
 		}
+		sh := genShape(c.Rng)
+		rc.Shape = &sh
 		runCase(c, cf, rc)
 	}
 	cf.Flush()
